@@ -1215,7 +1215,10 @@ class FnEmit:
         if op == 'ret':
             if s.thread: return ['F->pc = -1; return 0;']
             return ['return %s;' % (s.v(I.v) if I.v else '')]
-        if op == 'unreachable': return ['VERIF_UNREACHABLE();']
+        if op == 'unreachable':
+            # a failed assertion does not end the path for the checker; without a return control would fall into the textually next block
+            if getattr(s.em.opts, 'unreachable_returns', False) and not s.thread and isinstance(s.f.ret, VoidTy): return ['VERIF_UNREACHABLE();', 'return;']
+            return ['VERIF_UNREACHABLE();']
         if op == 'alloca':
             st = '%s__store' % R
             n = 1
@@ -1437,6 +1440,7 @@ def main():
     ap.add_argument('--list', action='store_true')
     ap.add_argument('--no-inline-expr', dest='no_inline_expr', action='store_true')
     ap.add_argument('--no-devirt', dest='no_devirt', action='store_true')
+    ap.add_argument('--unreachable-returns', dest='unreachable_returns', action='store_true', help='void functions: `return;` after VERIF_UNREACHABLE() (C05 join/die experiment)')
     ap.add_argument('--null-gep-ok', dest='null_gep_ok', action='store_true', help='emit single-index geps with a variable index as (i ? &p[i] : p): null + 0 is not an error')
     o = ap.parse_args()
     o.asm = dict(x.rsplit('=', 1) for x in o.asm)
